@@ -73,7 +73,8 @@ class ProbeLog:
         return self._inst[k]
 
     def add(self, phase: str, cmd: UodCommand, args: str = "") -> None:
-        ev = (self.tick_no, phase, cmd.name, self.inst(cmd), cmd.get_iteration_count(), args)
+        ev = (self.tick_no, phase, cmd.name, self.inst(cmd), cmd.get_iteration_count(), args,
+              str(getattr(cmd, "instance_id", "")))
         self.events.append(ev)
         if self.on_event is not None:
             self.on_event(ev)
